@@ -17,3 +17,4 @@ from contracts import rowio_ods as OD, rowio_excel as XL
 UNITS += [VIO.unit_raw_rows().also("C06"), OD.unit_ods_rows().also("C06"), XL.unit_excel_rows().also("C06")]
 from props import _groups as _G
 UNITS = _G.with_groups(PROPERTY, UNITS, _G.READERS, _G.VALIDATION, _G.CHECKS)
+UNITS += [OD.unit_ods_audit()]
